@@ -24,6 +24,23 @@ type HistOpts struct {
 	FS         bool // allow filesystem stores
 	LowFPR     bool
 	BigFilters bool // allow multi-MB filter padding in ext files
+	// MergeHeavy shapes the history so that Merge really combines blocks:
+	// few partitions, roomy row-group limits, many small flushed files, and
+	// one or more merges at the end.
+	MergeHeavy bool
+}
+
+// mergeFriendly rewrites a drawn configuration so blocks of different files
+// are mergeable (same partition, limits that leave room).
+func mergeFriendly(t *rapid.T, c EngCfg) EngCfg {
+	c.Partition = pick(t, "mpart", []string{"none", "const", "idmod3", "field"})
+	c.RGRows = pick(t, "mrgrows", []int{10000, 6, 12, 30})
+	c.RGBytes = pick(t, "mrgbytes", []int{10 << 20, 4000, 1500})
+	c.BufRows = pick(t, "mbufrows", []int{1000, 2, 3, 5})
+	c.BufBytes = 1 << 20
+	c.MaxFileSize = pick(t, "mmaxfile", []int{10 << 30, 10 << 30, 6000, 20000})
+	c.MaxMerge = pick(t, "mmaxmerge", []int{10, 3, 4, 2})
+	return c
 }
 
 func drawHistory(t *rapid.T, o HistOpts) History {
@@ -41,12 +58,27 @@ func drawHistory(t *rapid.T, o HistOpts) History {
 			h.Data = "mem-noabort"
 		}
 	}
+	if o.MergeHeavy {
+		h.Cfg = mergeFriendly(t, h.Cfg)
+	}
 	cfg := h.Cfg
 	nsteps := rapid.IntRange(1, o.MaxSteps).Draw(t, "nsteps")
+	if o.MergeHeavy {
+		nsteps = rapid.IntRange(4, o.MaxSteps).Draw(t, "mnsteps")
+	}
 	for i := 0; i < nsteps; i++ {
 		k := unif(t, "step", 20)
 		if i == 0 {
 			k = 0 // a history starts by storing something
+		}
+		if o.MergeHeavy {
+			// ingest, flush, ingest, flush, ..., with the occasional restart / merge
+			switch {
+			case i%2 == 0:
+				k = 0
+			case k < 14:
+				k = 11 // flush
+			}
 		}
 		switch {
 		case k < 11:
@@ -64,6 +96,13 @@ func drawHistory(t *rapid.T, o HistOpts) History {
 			h.Steps = append(h.Steps, Step{Op: "flush"})
 		case k < 16 && o.Restart:
 			c := drawCfg(t, tokenizer, numFieldPool, lowFPR)
+			if o.MergeHeavy {
+				c = mergeFriendly(t, c)
+				if chance(t, "samekeys", 60) {
+					c.MinMax = append([]string(nil), h.Cfg.MinMax...)
+					c.Partition = h.Cfg.Partition
+				}
+			}
 			cfg = c
 			h.Steps = append(h.Steps, Step{Op: "restart", Cfg: &c})
 		case k < 18 && o.Merge:
@@ -98,6 +137,12 @@ func drawHistory(t *rapid.T, o HistOpts) History {
 		}
 	}
 	_ = cfg
+	if o.MergeHeavy {
+		h.Steps = append(h.Steps, Step{Op: "merge"})
+		if chance(t, "secondmerge", 40) {
+			h.Steps = append(h.Steps, Step{Op: "merge"})
+		}
+	}
 	return h
 }
 
